@@ -952,6 +952,59 @@ def _shm_backed(F, cls):
     return out
 
 
+def literal_decisions(ev, subject):
+    """{literal: polarity} for the decisions `subject == <constant>` (either operand order) on the path of `ev`.  `subject` is a
+    predicate over walker values (e.g. "is the parameter cms_type")."""
+    out = {}
+    for (_, _, cc) in ev.path:
+        for c in conjuncts(cc):
+            pol = True
+            while c[0] == "not":
+                c, pol = c[1], not pol
+            if c[0] != "atom" or not (isinstance(c[1], tuple) and c[1] and c[1][0] == "cmp" and c[1][1] == "eq"):
+                continue
+            info = c[2] or {}
+            a, b = info.get("a"), info.get("b")
+            for x, y in ((a, b), (b, a)):
+                if subject(x) and isinstance(y, Opaque) and isinstance(y.desc, tuple) and len(y.desc) == 2 and y.desc[0] == "const":
+                    out[y.desc[1]] = pol
+    return out
+
+
+def is_param(name):
+    def f(v):
+        return isinstance(v, Num) and v.lin == Lin.term(("param", name))
+    return f
+
+
+def called_name(ev):
+    """Name of what a call event calls, looking through a local alias of a module-level name (`cls = CountMinLog16; cls(...)`)."""
+    f = ev.node.func if isinstance(ev.node, ast.Call) else None
+    if isinstance(f, ast.Name):
+        v = (getattr(ev, "envsnap", None) or {}).get(f.id)
+        if isinstance(v, Opaque) and isinstance(v.desc, tuple) and len(v.desc) == 2 and v.desc[0] == "global":
+            return v.desc[1]
+        return f.id
+    return dotted(f) if f is not None else None
+
+
+def dispatch_table(w, subject, classes_only=None):
+    """{literal: set of called names} for the calls reached on paths that decided `subject == literal`; only the literal decided
+    True last on the path counts (an elif chain decides the earlier literals False)."""
+    table = {}
+    for e in w.events:
+        if e.kind != "call" or not isinstance(e.node, ast.Call):
+            continue
+        nm = called_name(e)
+        if classes_only is not None and nm not in classes_only:
+            continue
+        dec = literal_decisions(e, subject)
+        pos = [l for l, pol in dec.items() if pol]
+        for l in pos:
+            table.setdefault(l, set()).add(nm)
+    return table
+
+
 def rule_argsdict(ctx, classes=SKETCH_CLASSES):
     F = facts_of(ctx)
     factories = {"countmin": ctx.model.func("countmin", "CountMin"), "heavyhitters": None, "hyperloglog": None}
@@ -981,39 +1034,41 @@ def rule_argsdict(ctx, classes=SKETCH_CLASSES):
         if fac is not None:
             tv = vals.get("cms_type")
             lit = tv.value if isinstance(tv, ast.Constant) else None
-            # the factory maps this literal back to this class
-            target = None
-            for n in walk_no_nested(fac.node):
-                if isinstance(n, ast.If) and isinstance(n.test, ast.Compare) and isinstance(n.test.comparators[0], ast.Constant) \
-                        and n.test.comparators[0].value == lit:
-                    made = {dotted(c.func) for s in n.body for c in calls_in(s)}
-                    target = made
+            # the factory maps this literal back to this class (on every path that decided cms_type == literal)
+            cm_classes = {c.name for c in F.classes(COUNTMIN)}
+            tp = "cms_type" if "cms_type" in fac.params else (fac.params[0] if fac.params else "cms_type")
+            target = dispatch_table(F.walk(fac), is_param(tp), cm_classes).get(lit)
             okk = target == {cls.name}
             ctx.ob("argsdict", ctor, tv or d[0].stmt, "cms_type=%r -> %s" % (lit, sorted(target) if target else None),
                    "the factory maps the recorded type string back to this class", okk)
 
 
 def rule_factory(ctx):
-    """CountMin(): every branch forwards width, depth, (max_count, num_reserved), shared_memory to the right positions."""
+    """CountMin(): every constructor call forwards width, depth, (max_count, num_reserved), shared_memory to the right positions."""
     F = facts_of(ctx)
     fac = ctx.model.func("countmin", "CountMin")
-    for n in walk_no_nested(fac.node):
-        if isinstance(n, ast.Call) and isinstance(n.func, ast.Name) and ctx.model.lookup_class(fac.module, n.func.id):
-            cls = ctx.model.lookup_class(fac.module, n.func.id)
+    w = F.walk(fac)
+    calls = [e for e in w.events if e.kind == "call" and isinstance(e.node, ast.Call) and ctx.model.lookup_class(fac.module, called_name(e) or "")]
+    for g in group_by_node(calls):
+        res = []
+        for e in g:
+            cls = ctx.model.lookup_class(fac.module, called_name(e))
             ctor = F.ctor(cls)
             cp = [p for p in ctor.params if p != "self"]
-            good = True
             why = ""
-            for i, a in enumerate(n.args):
-                if not (isinstance(a, ast.Name) and i < len(cp) and a.id == cp[i]):
-                    good, why = False, "positional argument %d is `%s`, parameter is `%s`" % (i, unparse(a), cp[i] if i < len(cp) else "?")
-            for k in n.keywords:
-                if not (isinstance(k.value, ast.Name) and k.value.id == k.arg and k.arg in cp):
-                    good, why = False, "keyword %s=%s" % (k.arg, unparse(k.value))
-            passed = {cp[i] for i in range(len(n.args))} | {k.arg for k in n.keywords}
+            for i, a in enumerate(e.args):
+                if not (i < len(cp) and isinstance(a, Num) and a.lin == Lin.term(("param", cp[i]))):
+                    why = "positional argument %d of %s(...) is not the factory's `%s`" % (i, cls.name, cp[i] if i < len(cp) else "?")
+            for kname, a in (e.kwargs or {}).items():
+                if not (kname in cp and isinstance(a, Num) and a.lin == Lin.term(("param", kname))):
+                    why = "keyword %s of %s(...) is not the factory's `%s`" % (kname, cls.name, kname)
+            passed = {cp[i] for i in range(min(len(e.args), len(cp)))} | set((e.kwargs or {}))
             if "shared_memory" not in passed:
-                good, why = False, "shared_memory is not forwarded"
-            ctx.ob("argsdict", fac, n, unparse(n, 90), "the factory forwards each argument to the same-named constructor parameter", good, why)
+                why = "shared_memory is not forwarded"
+            res.append((not why, why or "%s(...) receives the same-named factory parameters" % cls.name, fact_strs(e)))
+        agg(ctx, "argsdict", fac, g[0].node, unparse(g[0].node, 90), "the factory forwards each argument to the same-named constructor parameter", res)
+    if not calls:
+        ctx.ob("argsdict", fac, fac.node, "CountMin(...)", "the factory constructs count-min sketches", False, "no constructor call found")
 
 
 def rule_attach_table(ctx):
